@@ -88,6 +88,14 @@ CLAIMED = {
                      "with any number of spurious re-polls, yields Ready only after the source terminated, with the source's error or all its items in order; a parked poller always has a token pending "
                      "once the source has finished and reaches Ready within three of its own steps. Tie: the real to_vec is awaited by a minimal parking executor under thousands of controlled schedules; "
                      "result, termination and poll count must lie within the outcomes of the extracted model explored exhaustively."),
+    "C12": dict(engine="coq-conc", design="DESIGN.md 6 C12",
+                technique="machine-checked proof in Coq (invariants of two transition systems at critical-section granularity - Subject observer map; Replay/Behavior history with positions - for any number of producers, any scripts, any interleaving) + correspondence under a deterministic scheduling runtime (per-producer script-position oracle on every observed schedule; implementation log set within the models' exhaustively explored log sets)",
+                text="Theorems C12_subject_gap_free / C12_subject_all_items: under every interleaving of any number of producers with a subscribing and an unsubscribing thread an observer of a Subject receives from each producer a block of "
+                     "consecutive script positions, each once, in order, and all of them when it is subscribed throughout; C12_replay_late_subscriber / C12_behavior_late_subscriber / C12_history_is_pushed: a subscriber joining a ReplaySubject "
+                     "(BehaviorSubject) while pushes are in progress receives every item of the history exactly once in push order (one value and then exactly the later ones). Partial: terminals are not part of these two models (C19 covers terminals "
+                     "racing items), the unsubscribing observer of Replay/Behavior is judged by the oracle only. Tie: 1-2 producer threads, a subscriber present throughout, a subscribing and an unsubscribing thread on the real Subject / "
+                     "BehaviorSubject / ReplaySubject under DFS, random and PCT schedules; every subscriber log is judged against the producers' scripts and call/return order; DFS log sets must lie within the extracted models' log sets. "
+                     "Two genuine defects found and repaired (D15a, D15b)."),
     "C19": dict(engine="coq-conc", design="DESIGN.md 6 C19",
                 technique="machine-checked proof in Coq (invariant of a transition system at critical-section granularity, for any number of threads, any call lists, any interleaving) + correspondence under a deterministic scheduling runtime (exhaustive DFS / random / PCT schedules; implementation log set within the model's explored log set)",
                 text="Theorems C19_at_most_one_terminal / C19_nothing_started_after_terminal_returned / C19_slots_empty_after_terminal: in the gate model of Observer "
